@@ -19,21 +19,21 @@ RULES = {
 # recorder plans: (mode, obs, extra args) with a weight (number of shards out of 16) and events per shard
 PLANS = {
     "C01": dict(
-        quick=[("play", "legal", ["-plies", "50"], 9, 6000), ("positions", "legal", [], 7, 4000)],
-        thorough=[("play", "legal", ["-plies", "70"], 9, 60000), ("positions", "legal", [], 7, 40000)]),
+        quick=[("play", "legal", ["-plies", "50"], 8, 6000), ("positions", "legal", [], 6, 4000), ("uciperft", "", [], 2, 220)],
+        thorough=[("play", "legal", ["-plies", "70"], 8, 60000), ("positions", "legal", [], 6, 40000), ("uciperft", "", [], 2, 2500)]),
     "C02": dict(
         quick=[("play", "fen", ["-plies", "60"], 10, 8000), ("shuffle", "fen", ["-plies", "170"], 3, 6000),
                ("ucipos", "", ["-plies", "40"], 3, 250)],
         thorough=[("play", "fen", ["-plies", "80"], 9, 80000), ("shuffle", "fen", ["-plies", "300"], 3, 60000),
                   ("ucipos", "", ["-plies", "150"], 4, 1500)]),
     "C03": dict(
-        quick=[("walk", "hash,hashes", ["-plies", "24"], 16, 5000)],
-        thorough=[("walk", "hash,hashes", ["-plies", "40"], 16, 50000)]),
+        quick=[("walk", "hash,hashes", ["-plies", "24"], 12, 5000), ("searchops", "", [], 4, 9000)],
+        thorough=[("walk", "hash,hashes", ["-plies", "40"], 12, 50000), ("searchops", "", [], 4, 90000)]),
     "C04": dict(
-        quick=[("play", "hash", ["-plies", "60"], 6, 5000), ("walk", "hash", ["-plies", "20"], 5, 5000),
-               ("transp", "", [], 5, 1200)],
-        thorough=[("play", "hash", ["-plies", "80"], 6, 50000), ("walk", "hash", ["-plies", "30"], 5, 50000),
-                  ("transp", "", [], 5, 12000)]),
+        quick=[("play", "hash", ["-plies", "60"], 5, 5000), ("walk", "hash", ["-plies", "20"], 4, 5000),
+               ("transp", "", [], 4, 1200), ("searchops", "", [], 3, 9000)],
+        thorough=[("play", "hash", ["-plies", "80"], 5, 50000), ("walk", "hash", ["-plies", "30"], 4, 50000),
+                  ("transp", "", [], 4, 12000), ("searchops", "", [], 3, 90000)]),
     "C05": dict(
         quick=[("positions", "gen", [], 10, 6000), ("play", "gen", ["-plies", "40"], 6, 6000)],
         thorough=[("positions", "gen", [], 10, 60000), ("play", "gen", ["-plies", "60"], 6, 60000)]),
@@ -61,6 +61,14 @@ def shard_jobs(prop, tier, bins, work):
             k += 1
             sd = base + k
 
+            if mode == "searchops":
+                # every make/undo/null the REAL search performs, through the board observer hook
+                args = ["-n", str(nev), "-seed", str(sd)]
+
+                def record(path, args=args):
+                    vf.run([bins["rec-searchops"]] + args + ["-corpus", CORPUS, "-out", path], timeout=900)
+                jobs.append(dict(name="%s-searchops-%d" % (prop, i), record=record, args=["searchops"] + args))
+                continue
             args = ["-mode", mode, "-obs", obs, "-n", str(nev), "-seed", str(sd)] + list(extra)
 
             def record(path, args=args):
@@ -115,20 +123,88 @@ def model_run(prop, tier, bins, work):
     return dict(states=states, transitions=trans, invariants=invs, perft_roots=len(got), perft_depth=pd, bfs_depth=depth)
 
 
+GM_CFG = "INIT Init\nNEXT Next\nCHECK_DEADLOCK FALSE\nINVARIANTS StateOK HashIsFunctionOfKey\n"
+
+
+def game_model_run(prop, tier, bins, work):
+    """Design level for C02/C03/C04: the code-shaped make/undo/hash algorithm (GameModel.tla) refines the rules."""
+    roots = os.path.join(work, "gm-roots.ndjson")
+    vf.run([bins["rec-board"], "-mode", "list", "-obs", "", "-corpus", CORPUS, "-out", roots], timeout=300)
+    nsh = vf.NCPU
+    depth = 1 if tier == "quick" else 2
+
+    def one(sh):
+        return vf.tlc(work, "GameModel", GM_CFG, env_extra=dict(ROOTS=roots, SHARD=sh, NSHARDS=nsh, MAXDEPTH=depth), timeout=3000, heap="2g")
+    rs = vf.pmap(one, range(nsh))
+    for r in rs:
+        vf.tlc_must_pass(r, "GameModel.tla (code-shaped make/undo refines Chess!Make)")
+    return dict(module="GameModel.tla", states=sum(r.distinct for r in rs), transitions=sum(r.generated for r in rs), depth=depth,
+                checked=["MakeRefines", "UndoRestores", "NullUndoRestores", "HashIsScratch", "Consistent", "TokenFits", "HashIsFunctionOfKey", "legality filter"])
+
+
+ENUM_CLASSES = [5, 1, 9, 4, 13, 2, 3, 12, 10, 11]   # Q P p R q N B r n b
+
+
+def enum_classes(prop, tier, bins, work, res):
+    """Exhaustive small-material classes K+X v K / K v K+x (EnumTrace.tla); merged into res."""
+    quick = tier == "quick"
+    rot = vf.seed() % len(ENUM_CLASSES)
+    classes = [ENUM_CLASSES[rot], ENUM_CLASSES[(rot + 1) % len(ENUM_CLASSES)]] if quick else ENUM_CLASSES
+    if quick and 1 not in classes and 9 not in classes:
+        classes[1] = [1, 9][vf.seed() % 2]        # always one pawn class: pawns are where the colour-specific code is
+    every = 8 if quick else 1
+    nsh = 8 if quick else 16
+    jobs = []
+    for x in classes:
+        for i in range(nsh):
+            args = ["-mode", "enum", "-x", str(x), "-shard", str(i), "-nshards", str(nsh), "-every", str(every)]
+
+            def record(path, args=args):
+                vf.run([bins["rec-board"]] + args + ["-out", path], timeout=900)
+            jobs.append(dict(name="%s-enum-%d-%d" % (prop, x, i), record=record, args=args))
+    er = tc.run_shards(work, "EnumTrace", jobs, timeout=6000)
+    indices = 0
+    judged = 0
+    for fpath in er.files:
+        for e in vf.read_ndjson(fpath):
+            indices += len(e["cnt"])
+            judged += sum(1 for v in e["cnt"] if v >= 0)
+    res.mm += er.mm
+    res.states += er.states
+    res.transitions += er.transitions
+    res.events += er.events
+    res.files += er.files
+    return {"small_material_classes": {"third_piece_codes": classes, "exhaustive": not quick, "sampled_one_chunk_in": every,
+                                       "indices_enumerated": indices, "placements_the_engine_was_asked_about": judged,
+                                       "rule": "index = wk + 64 bk + 4096 x + 262144 stm; TLC decides validity and compares playable-move count, encoding checksum and the direct mate/stalemate answer per index"}}
+
+
 def run(prop, tier, replay):
     t0 = time.time()
     with vf.scratch("verif-%s-" % prop) as work:
         vf.stage_specs(work)
-        bins = vf.build_harness(work, ["rec-board"])
+        bins = vf.build_harness(work, ["rec-board", "rec-searchops"])
         vf.log("built harness %.1fs" % (time.time() - t0))
         if replay:
             return do_replay(prop, replay, bins, work)
         model = model_run(prop, tier, bins, work) if prop in ("C01", "C02") else None
+        gm = game_model_run(prop, tier, bins, work) if prop in ("C02", "C03", "C04") else None
+        if gm:
+            if model:
+                model["game_model"] = gm
+                model["states"] += gm["states"]
+                model["transitions"] += gm["transitions"]
+            else:
+                model = gm
         vf.log("design-level model done %.1fs" % (time.time() - t0))
         jobs = shard_jobs(prop, tier, bins, work)
         res = tc.run_shards(work, "GameTrace", jobs, timeout=3000)
         vf.log("trace validation done %.1fs (%d events)" % (time.time() - t0, res.events))
-        return conclude(prop, tier, res, model, t0)
+        extra = None
+        if prop in ("C01", "C09"):
+            extra = enum_classes(prop, tier, bins, work, res)
+            vf.log("small-material classes done %.1fs" % (time.time() - t0))
+        return conclude(prop, tier, res, model, t0, extra)
 
 
 def conclude(prop, tier, res, model, t0, extra_cov=None):
@@ -148,7 +224,10 @@ def conclude(prop, tier, res, model, t0, extra_cov=None):
         seen_rules[r] = seen_rules.get(r, 0) + 1
         if seen_rules[r] > 2 or len(paths) >= 6:
             continue
-        script = tc.script_of(m["file"], m["l"]) if not r.startswith("PANIC/") else {"recorder_args": m.get("args")}
+        if r.startswith("PANIC/") or "-enum-" in m.get("shard", "") or "-searchops-" in m.get("shard", ""):
+            script = {"recorder_args": m.get("args")}
+        else:
+            script = tc.script_of(m["file"], m["l"])
         name = "%s-%d" % (r.split("/")[1], len(paths))
         paths.append(vf.write_replay(prop, name, {"property": prop, "kind": "board-script", "obs": REPLAY_OBS[prop],
                                                     "script": script, "rejected": {k: v for k, v in m.items() if k not in ("file",)}}))
@@ -179,8 +258,17 @@ def do_replay(prop, replay, bins, work):
     sc = rp["script"]
     path = os.path.join(work, "replay.ndjson")
     if "recorder_args" in sc:
-        # an engine panic: re-run the very same recorder invocation (deterministic in its seed)
-        vf.run([bins["rec-board"]] + sc["recorder_args"] + ["-corpus", CORPUS, "-out", path], timeout=900)
+        # an engine panic / an enumerated class: re-run the very same recorder invocation (deterministic)
+        if sc["recorder_args"] and sc["recorder_args"][0] == "searchops":
+            vf.run([bins["rec-searchops"]] + sc["recorder_args"][1:] + ["-corpus", CORPUS, "-out", path], timeout=900)
+        else:
+            vf.run([bins["rec-board"]] + sc["recorder_args"] + ["-corpus", CORPUS, "-out", path], timeout=900)
+        if "enum" in sc["recorder_args"]:
+            _, mm, total = tc.validate_trace(work, "EnumTrace", path, timeout=3000)
+            if [m for m in mm if m["rule"].startswith(RULES[prop])]:
+                print("VIOLATION property=%s replay=%s" % (prop, replay))
+                return 1
+            return 0
     elif "event" in sc:
         path = os.path.join(work, "replay.ndjson")
         # self-contained event (transposition pair / uci position): re-execute through the recorder
